@@ -46,9 +46,10 @@ Design rules (all conservative = they can only ADD atoms / edges):
     that escapes (stored in an attribute / container, returned) may be applied to a parameter; an external in-place
     function used as a value anywhere else gives UnknownModule "construct:inplace-function-as-value";
   * reading the process environment through the file system: `Path.home()`, `Path.cwd()`, `.expanduser()`,
-    `os.path.expanduser / expandvars`, `tempfile.*`, `glob`, `importlib.resources`, and opening / loading a path written as
-    a string constant (`open("/etc/x")`, `np.loadtxt("defaults.txt")`) give Environ: the content of a file that is not
-    named by the caller is a foreign source;
+    `os.path.expanduser / expandvars`, and opening / loading a path that is fixed in the source (`open("/etc/x")`,
+    `np.loadtxt(_DEFAULTS)`, `Path("~/.rc").read_text()`: built from string constants / module-level names only, no local or
+    parameter takes part) give Environ: the content of a file that is not named by the caller is a foreign source
+    (`tempfile`, `glob`, `importlib`, `configparser`, `shutil` ... are outside the module whitelist: UnknownModule);
   * inside callbacks/timer.py clock values also flow through CONTROL dependence: a name / own attribute assigned under a
     branch or loop whose test reads a clock value is itself a clock value (in every method of the module);
   * statements or expressions the translator does not know give UnknownModule "construct:<X>".
@@ -765,6 +766,7 @@ class FnVisitor:
         self.bind_kinds = {}     # local name -> set of {"container", "other"} over all its bindings
         self.set_ok = set()      # id() of set-typed expression nodes used in a harmless position
         self.callable_alias, self.lambda_alias, self.followed, self.escaping_lambdas = {}, {}, set(), []
+        self.call_funcs = set()
         self.own_names = set()
 
     # ------------------------------------------------------------ scope
@@ -882,6 +884,7 @@ class FnVisitor:
         for n in nodes:
             if isinstance(n, ast.Call):
                 self.followed.add(id(n.func))
+                self.call_funcs.add(id(n.func))
                 for a in list(n.args) + [k.value for k in n.keywords]:
                     a = a.value if isinstance(a, ast.Starred) else a
                     self.followed.add(id(a))
@@ -941,6 +944,13 @@ class FnVisitor:
         """what a value expression may denote as a callable: [("fn", Fn, offset) | ("ext", dotted) | ("lambda", node)]"""
         if isinstance(e, ast.Lambda):
             return [("lambda", e)]
+        if isinstance(e, ast.Call) and e.args:
+            ch = self.tr.attr_chain(e.func)
+            r0 = self.resolve_name(ch[0], ch[1]) if ch is not None else None
+            if r0 is not None and r0[0] == "ext" and r0[1] in ("functools.partial", "functools.partialmethod", "functools.wraps",
+                                                              "functools.update_wrapper"):
+                return self.callable_targets(e.args[0])      # partial(f, ...) is applied like f
+            return []
         if isinstance(e, (ast.IfExp, ast.BoolOp)):
             out = []
             for x in self.branches(e)[1:]:
@@ -1671,7 +1681,7 @@ class FnVisitor:
                 return
             for a in attrs:
                 self.by_name_edges(a)
-            if isinstance(n.ctx, ast.Load) and inplace_name(n.attr) and id(n) not in self.followed \
+            if isinstance(n.ctx, ast.Load) and inplace_name(n.attr) and id(n) not in self.call_funcs \
                     and n.attr not in self.tr.inst_attr_assigners:
                 # a bound in-place method taken as a value (f = p.clamp_): whoever calls it writes the receiver
                 self.mutation(self.roots(n.value), n.lineno, "bound in-place method .%s taken as a value" % n.attr)
@@ -1798,7 +1808,7 @@ class FnVisitor:
         args_all = list(call.args) + [k.value for k in call.keywords]
         for a in args_all:
             a0 = a.value if isinstance(a, ast.Starred) else a
-            if not isinstance(a0, (ast.Name, ast.Attribute, ast.IfExp, ast.BoolOp)):
+            if not isinstance(a0, (ast.Name, ast.Attribute, ast.IfExp, ast.BoolOp, ast.Call)):
                 continue
             ts = [t for t in self.callable_targets(a0) if t[0] != "lambda"]
             if not ts:
@@ -1937,6 +1947,8 @@ class FnVisitor:
             fn.add("Clock", line, "method ." + m + "() (file times)")
         if m in ENV_PATH_NAMES and not cands:
             fn.add("Environ", line, "method ." + m + "() (location taken from the process environment)")
+        if m in ("read_text", "read_bytes", "open") and not cands and self.fixed_path(recv):
+            fn.add("Environ", line, "method ." + m + "() reads a path that is fixed in the source, not named by the caller")
         if m in FILEWRITE_METHODS and not cands:
             fn.add("FileWrite", line, "method ." + m + "()")
         if (m.endswith("_") and not m.endswith("__")) or m in INPLACE_EXTRA:
